@@ -1012,7 +1012,7 @@ func (ex *Exec) copyOp(dst *SliceVal, srcv Value) Value {
 		return c.I64(int64(n))
 	}
 	seq, sl := ex.byteSeqOf(srcv)
-	n := c.Ite(c.Ult(dst.len, sl), dst.len, sl)
+	n := ex.minLen(dst.len, sl)
 	if dst.obj == nil {
 		return c.I64(0)
 	}
@@ -1088,4 +1088,45 @@ func (ex *Exec) appendOp(s *SliceVal, more Value, res *ssa.Call) Value {
 	}
 	o := ex.newObject(et, av)
 	return &SliceVal{o, c.I64(0), c.I64(int64(newLen)), c.I64(int64(newCap))}
+}
+
+// minLen returns min(a,b); when the path condition decides the comparison the
+// simpler term is used (keeps later memory reads small).
+func (ex *Exec) minLen(a, b *Term) *Term {
+	c := ex.ctx
+	lt := c.Ult(a, b)
+	if lt.IsConst() {
+		if lt.k == 1 {
+			return a
+		}
+		return b
+	}
+	if ex.implied(c.Not(lt)) { // b <= a always
+		return b
+	}
+	if ex.implied(c.Ule(a, b)) {
+		return a
+	}
+	return c.Ite(lt, a, b)
+}
+
+// implied: does the path condition imply t?  (unknown counts as "no")
+func (ex *Exec) implied(t *Term) bool {
+	if t.IsTrue() {
+		return true
+	}
+	if t.IsFalse() {
+		return false
+	}
+	neg := ex.ctx.Not(t)
+	if ex.unsatCache[neg.id] {
+		return true
+	}
+	ex.flush()
+	r := ex.solver.CheckWith(neg)
+	if r == Unsat {
+		ex.unsatCache[neg.id] = true
+		return true
+	}
+	return false
 }
